@@ -21,12 +21,17 @@
 EXTENDS Integers, Sequences, FiniteSets, TLC, Ops
 
 CONSTANTS Names, MaxOps, Cap, RingSize, WatchFile,
+          HELD,            \* a descriptor may be opened on the file that carries the D/x watch: it then outlives its name (C09)
           STRICT_REMOVE    \* the ghost expects a Remove from the end of the D/x watch unless D itself reports the removal (the
                            \* property, C09); FALSE: it follows the code, which stays silent whenever D is listed (known finding)
 
 VARIABLES present,     \* entry names that exist in D
           fmark,       \* the entry name whose file carries the kernel mark of the watch on D/x ("" none, "*" moved out of D)
           w2end,       \* ghost: the end of that watch (IN_MOVE_SELF / IN_DELETE_SELF) has been queued
+          held,        \* the name in D of the file somebody holds a descriptor on ("" nobody, "#" it was moved out of D)
+          hgone,       \* ... that name has been unlinked or overwritten: the file lives on, and the kernel keeps reporting what is
+                       \* done through the descriptor to D under the old name (what IN_EXCL_UNLINK would switch off)
+          prepd,       \* ghost: D's watch has reported the removal of the file that carries the D/x watch (IN_DELETE for its name)
           cookie,      \* kernel rename cookie counter
           kq,          \* kernel queue of records [wd, m, n, ck]   (wd 1 = D, wd 2 = D/x, 0 = none)
           nops,
@@ -37,12 +42,12 @@ VARIABLES present,     \* entry names that exist in D
           evq,         \* Events channel buffer
           want,        \* ghost: translation of every record queued for a live watch, in order
           got          \* ghost: what the consumer received
-vars == <<present, fmark, w2end, cookie, kq, nops, tab, buf, out, ring, ridx, evq, want, got>>
+vars == <<present, fmark, w2end, held, hgone, prepd, cookie, kq, nops, tab, buf, out, ring, ridx, evq, want, got>>
 
 NoEv == [name |-> <<>>, op |-> 0, from |-> <<>>]
 WatchPath(wd) == IF wd = 1 THEN <<"D">> ELSE <<"D", "x">>
 
-Init == /\ present = {"x"} /\ fmark = (IF WatchFile THEN "x" ELSE "") /\ w2end = FALSE /\ cookie = 0 /\ kq = <<>> /\ nops = 0
+Init == /\ present = {"x"} /\ fmark = (IF WatchFile THEN "x" ELSE "") /\ w2end = FALSE /\ held = "" /\ hgone = FALSE /\ prepd = FALSE /\ cookie = 0 /\ kq = <<>> /\ nops = 0
         /\ tab = IF WatchFile THEN {1, 2} ELSE {1}
         /\ buf = <<>> /\ out = NoEv /\ ring = [i \in 1..RingSize |-> [ck |-> 0, path |-> <<>>]] /\ ridx = 1
         /\ evq = <<>> /\ want = <<>> /\ got = <<>>
@@ -61,7 +66,7 @@ Xlate(r, ckmap) ==
    from |-> IF HasBit(r.m, IN_MOVED_TO) /\ r.ck # 0 /\ r.ck \in DOMAIN ckmap THEN ckmap[r.ck] ELSE <<>>]
 
 \* ghost bookkeeping: which records count (merged ones do not: they were never queued)
-Account(q, rs, w, e) ==
+Account(q, rs, w, e, pd) ==
   LET RECURSIVE Go(_, _, _, _)
       Go(qq, rr, ww, ee) ==
                         IF rr = <<>> THEN [w |-> ww, e |-> ee]
@@ -70,7 +75,7 @@ Account(q, rs, w, e) ==
                                  house == HasBit(r.m, IN_IGNORED) \/ InotifyOpOf(r.m) = 0
                                  \* a DELETE_SELF of D/x while D is listed is reported by D's IN_DELETE only
                                  dup == r.wd = 2 /\ HasBit(r.m, IN_DELETE_SELF)
-                                        /\ (~STRICT_REMOVE \/ \E k \in 1..Len(rs) : rs[k].wd = 1 /\ HasBit(rs[k].m, IN_DELETE))
+                                        /\ (~STRICT_REMOVE \/ pd \/ \E k \in 1..Len(rs) : rs[k].wd = 1 /\ HasBit(rs[k].m, IN_DELETE))
                                  \* records of the D/x watch behind its own end are skipped by the reader (the watch is gone by then)
                                  late == r.wd = 2 /\ ee
                                  ends == r.wd = 2 /\ (HasBit(r.m, IN_MOVE_SELF) \/ HasBit(r.m, IN_DELETE_SELF))
@@ -79,38 +84,57 @@ Account(q, rs, w, e) ==
 
 FsStep(rs) == /\ nops < MaxOps /\ nops' = nops + 1
               /\ kq' = EnqAll(kq, rs)
-              /\ want' = Account(kq, rs, want, w2end).w /\ w2end' = Account(kq, rs, want, w2end).e
+              /\ want' = Account(kq, rs, want, w2end, prepd).w /\ w2end' = Account(kq, rs, want, w2end, prepd).e
               /\ UNCHANGED <<tab, buf, out, ring, ridx, evq, got>>
 
 OnFile(n, m) == IF fmark = n THEN <<Rec(2, m, "", 0)>> ELSE <<>>
-Create(n) == /\ n \notin present /\ present' = present \cup {n} /\ UNCHANGED <<fmark, cookie>>
+\* the file that carries the mark outlives its name while somebody holds it (held = its name)
+Kept(n) == held = n /\ ~hgone
+Create(n) == /\ n \notin present /\ present' = present \cup {n} /\ UNCHANGED <<fmark, held, hgone, prepd, cookie>>
              /\ FsStep(<<Rec(1, IN_CREATE, n, 0)>>)
-Write(n)  == /\ n \in present /\ UNCHANGED <<present, fmark, cookie>>
+Write(n)  == /\ n \in present /\ UNCHANGED <<present, fmark, held, hgone, prepd, cookie>>
              /\ FsStep(<<Rec(1, IN_MODIFY, n, 0)>> \o OnFile(n, IN_MODIFY))
-Chmod(n)  == /\ n \in present /\ UNCHANGED <<present, fmark, cookie>>
+Chmod(n)  == /\ n \in present /\ UNCHANGED <<present, fmark, held, hgone, prepd, cookie>>
              /\ FsStep(<<Rec(1, IN_ATTRIB, n, 0)>> \o OnFile(n, IN_ATTRIB))
 Unlink(n) == /\ n \in present /\ present' = present \ {n} /\ UNCHANGED cookie
-             /\ fmark' = (IF fmark = n THEN "" ELSE fmark)
-             /\ FsStep((IF fmark = n THEN <<Rec(2, IN_ATTRIB, "", 0), Rec(2, IN_DELETE_SELF, "", 0), Rec(2, IN_IGNORED, "", 0)>> ELSE <<>>)
+             /\ fmark' = (IF fmark = n THEN (IF Kept(n) THEN "#" ELSE "") ELSE fmark)
+             /\ hgone' = (hgone \/ Kept(n)) /\ UNCHANGED held
+             /\ prepd' = (prepd \/ fmark = n)
+             \* link count changes (IN_ATTRIB on the file); the last reference goes with the name unless the file is held: then
+             \* the directory reports first and the file's own end comes with the last close
+             /\ FsStep((IF fmark = n THEN <<Rec(2, IN_ATTRIB, "", 0)>> ELSE <<>>)
+                       \o (IF fmark = n /\ ~Kept(n) THEN <<Rec(2, IN_DELETE_SELF, "", 0), Rec(2, IN_IGNORED, "", 0)>> ELSE <<>>)
                        \o <<Rec(1, IN_DELETE, n, 0)>>)
-Rename(a, b) == /\ a \in present /\ a # b /\ present' = (present \ {a}) \cup {b} /\ cookie' = cookie + 1
+Rename(a, b) == /\ a \in present /\ a # b /\ present' = (present \ {a}) \cup {b} /\ cookie' = cookie + 1 /\ UNCHANGED prepd
                 \* the mark follows the renamed file (until the reader gets to its IN_MOVE_SELF); an overwritten marked file is released
-                /\ fmark' = (IF fmark = a THEN b ELSE IF fmark = b THEN "" ELSE fmark)
+                \* (unless it is held: then it lives on without a name)
+                /\ fmark' = (IF fmark = a THEN b ELSE IF fmark = b THEN (IF Kept(b) THEN "#" ELSE "") ELSE fmark)
+                /\ held' = (IF Kept(a) THEN b ELSE held) /\ hgone' = (hgone \/ (Kept(b) /\ b \in present))
                 /\ FsStep(<<Rec(1, IN_MOVED_FROM, a, cookie + 1), Rec(1, IN_MOVED_TO, b, cookie + 1)>>
                           \o (IF fmark = b /\ b \in present THEN <<Rec(2, IN_ATTRIB, "", 0)>> ELSE <<>>)
                           \o OnFile(a, IN_MOVE_SELF)
-                          \o (IF fmark = b /\ b \in present THEN <<Rec(2, IN_DELETE_SELF, "", 0), Rec(2, IN_IGNORED, "", 0)>> ELSE <<>>))
+                          \o (IF fmark = b /\ b \in present /\ ~Kept(b) THEN <<Rec(2, IN_DELETE_SELF, "", 0), Rec(2, IN_IGNORED, "", 0)>> ELSE <<>>))
 MoveOut(a) == /\ a \in present /\ present' = present \ {a} /\ cookie' = cookie + 1 /\ fmark' = (IF fmark = a THEN "*" ELSE fmark)
+              /\ held' = (IF Kept(a) THEN "#" ELSE held) /\ UNCHANGED <<hgone, prepd>>
               /\ FsStep(<<Rec(1, IN_MOVED_FROM, a, cookie + 1)>> \o OnFile(a, IN_MOVE_SELF))
-MoveIn(b)  == /\ b \notin present /\ present' = present \cup {b} /\ cookie' = cookie + 1 /\ UNCHANGED fmark
+MoveIn(b)  == /\ b \notin present /\ present' = present \cup {b} /\ cookie' = cookie + 1 /\ UNCHANGED <<fmark, held, hgone, prepd>>
               /\ FsStep(<<Rec(1, IN_MOVED_TO, b, cookie + 1)>>)
-Fs == \E a \in Names : Create(a) \/ Write(a) \/ Chmod(a) \/ Unlink(a) \/ MoveOut(a) \/ MoveIn(a) \/ \E b \in Names : Rename(a, b)
+\* somebody opens the watched file, writes through the descriptor, closes it (IN_OPEN / IN_CLOSE are not subscribed to)
+Open == /\ HELD /\ held = "" /\ fmark \in Names /\ held' = fmark /\ hgone' = FALSE /\ UNCHANGED <<present, fmark, prepd, cookie>> /\ FsStep(<<>>)
+FdWrite == /\ held # "" /\ UNCHANGED <<present, fmark, held, hgone, prepd, cookie>>
+           /\ FsStep((IF held \in Names THEN <<Rec(1, IN_MODIFY, held, 0)>> ELSE <<>>)
+                     \o (IF (Kept(held) /\ fmark = held) \/ (hgone /\ fmark = "#") \/ (held = "#" /\ fmark = "*") THEN <<Rec(2, IN_MODIFY, "", 0)>> ELSE <<>>))
+Release == /\ held # "" /\ held' = "" /\ hgone' = FALSE /\ UNCHANGED <<present, prepd, cookie>>
+           /\ fmark' = (IF fmark = "#" THEN "" ELSE fmark)
+           /\ FsStep(IF fmark = "#" THEN <<Rec(2, IN_DELETE_SELF, "", 0), Rec(2, IN_IGNORED, "", 0)>> ELSE <<>>)
+Fs == \/ \E a \in Names : Create(a) \/ Write(a) \/ Chmod(a) \/ Unlink(a) \/ MoveOut(a) \/ MoveIn(a) \/ \E b \in Names : Rename(a, b)
+      \/ Open \/ FdWrite \/ Release
 
 ---------------------------------------------------------------------------
 \* Reader
 Read == /\ buf = <<>> /\ out = NoEv /\ kq # <<>>
         /\ \E k \in 1..Len(kq) : buf' = SubSeq(kq, 1, k) /\ kq' = SubSeq(kq, k + 1, Len(kq))
-        /\ UNCHANGED <<present, fmark, w2end, cookie, nops, tab, out, ring, ridx, evq, want, got>>
+        /\ UNCHANGED <<present, fmark, w2end, held, hgone, prepd, cookie, nops, tab, out, ring, ridx, evq, want, got>>
 
 \* newEvent: mask translation and the cookie ring
 Lookup(ck) == LET S == {i \in 1..RingSize : ring[i].ck = ck} IN
@@ -139,16 +163,16 @@ Handle ==
         /\ IF live /\ mself /\ fmark # ""
            THEN kq' = Enq(kq, Rec(2, IN_IGNORED, "", 0)) /\ fmark' = ""
            ELSE UNCHANGED <<kq, fmark>>
-  /\ UNCHANGED <<present, w2end, cookie, nops, evq, want, got>>
+  /\ UNCHANGED <<present, w2end, held, hgone, prepd, cookie, nops, evq, want, got>>
 
 Send == /\ out # NoEv /\ Len(evq) < Cap
         /\ evq' = Append(evq, out) /\ out' = NoEv
-        /\ UNCHANGED <<present, fmark, w2end, cookie, kq, nops, tab, buf, ring, ridx, want, got>>
+        /\ UNCHANGED <<present, fmark, w2end, held, hgone, prepd, cookie, kq, nops, tab, buf, ring, ridx, want, got>>
 
 \* Consumer (free): from the buffer, or the rendezvous with a parked sender
 Recv == /\ \/ /\ evq # <<>> /\ got' = Append(got, Head(evq)) /\ evq' = Tail(evq) /\ UNCHANGED out
            \/ /\ evq = <<>> /\ out # NoEv /\ Cap = 0 /\ got' = Append(got, out) /\ out' = NoEv /\ UNCHANGED evq
-        /\ UNCHANGED <<present, fmark, w2end, cookie, kq, nops, tab, buf, ring, ridx, want>>
+        /\ UNCHANGED <<present, fmark, w2end, held, hgone, prepd, cookie, kq, nops, tab, buf, ring, ridx, want>>
 
 Next == Fs \/ Read \/ Handle \/ Send \/ Recv
 Spec == Init /\ [][Next]_vars
